@@ -279,9 +279,14 @@ def check_new(ctx: Check, tree: Tree) -> bool:
         return False
     import re
 
-    for node in walk_function(new.node):
-        if isinstance(node, ast.If) and re.fullmatch(r"len\(\w+\) == 0", unparse(node.test)) and any(isinstance(s, ast.Raise) for s in node.body):
-            return True
+    # ... in __new__ itself or in a helper of the same module that it calls (extracted validation)
+    reach = [q for q in tree.reachable(new.qual) if q in tree.funcs and tree.funcs[q].module is new.module]
+    for q in reach:
+        for node in walk_function(tree.funcs[q].node):
+            if isinstance(node, ast.If) and any(isinstance(s, ast.Raise) for s in node.body):
+                t = unparse(node.test).replace(" ", "")
+                if re.fullmatch(r"len\(\w+\)==0|notlen\(\w+\)|not\w+", t) or re.fullmatch(r"len\(\w+\)<1", t):
+                    return True
     return False
 
 
